@@ -1,4 +1,6 @@
 
+val negb : bool -> bool
+
 type nat =
 | O
 | S of nat
@@ -33,6 +35,15 @@ type z =
 | Z0
 | Zpos of positive
 | Zneg of positive
+
+module Nat :
+ sig
+  val eqb : nat -> nat -> bool
+
+  val leb : nat -> nat -> bool
+
+  val ltb : nat -> nat -> bool
+ end
 
 module Pos :
  sig
@@ -156,11 +167,25 @@ module Z :
   val modulo : z -> z -> z
  end
 
+val nth : nat -> 'a1 list -> 'a1 -> 'a1
+
 val concat : 'a1 list list -> 'a1 list
 
 val map : ('a1 -> 'a2) -> 'a1 list -> 'a2 list
 
+val flat_map : ('a1 -> 'a2 list) -> 'a1 list -> 'a2 list
+
+val fold_right : ('a2 -> 'a1 -> 'a1) -> 'a1 -> 'a2 list -> 'a1
+
+val existsb : ('a1 -> bool) -> 'a1 list -> bool
+
 val forallb : ('a1 -> bool) -> 'a1 list -> bool
+
+val filter : ('a1 -> bool) -> 'a1 list -> 'a1 list
+
+val seq : nat -> nat -> nat list
+
+val list_sum : nat list -> nat
 
 type byte = n
 
@@ -225,3 +250,270 @@ val escape_all_pairs : n list -> n -> n list list list
 val builtin_json : bool -> n list list list
 
 val builtin_table : bool -> table
+
+type chan = nat
+
+type pid = nat
+
+type wgid = nat
+
+type alt =
+| SendAlt of chan
+| RecvAlt of chan
+| DoneAlt
+| TimerAlt
+| DefaultAlt
+
+type iokind =
+| RecvLine
+| WriteWire
+| PauseGate
+| FileIO
+| Unknown
+
+type stmt =
+| Sel of (alt * stmt list) list
+| Io of iokind
+| Cancel
+| IfCtxExit
+| Return
+| RecvClose of chan
+| SendOnce of chan
+| Join of pid
+| WgWait of wgid
+| WgAdd of wgid
+| WgDone of wgid
+| Branch of stmt list * stmt list
+| LoopCtx of stmt list
+| LoopRange of chan * stmt list
+| LoopData of stmt list
+
+type proc = { body : stmt list; finally : stmt list; defer_close : chan list;
+              exit_cancel : bool; rank : nat }
+
+type net = { procs_of : proc list; caps : nat list; senders : pid option list }
+
+val noproc : proc
+
+val info : net -> pid -> proc
+
+val nprocs : net -> nat
+
+val capof : net -> chan -> nat
+
+val sender : net -> chan -> pid option
+
+val exitsS : stmt -> bool
+
+val exitsL : stmt list -> bool
+
+type condition =
+| W1
+| W2
+| W3
+| W4
+| W5
+
+val is_wake : alt -> bool
+
+val has_wake : (alt * stmt list) list -> bool
+
+val opt_pid_eqb : pid option -> pid option -> bool
+
+val closer_ok : net -> pid -> chan -> bool
+
+val alt_ok : net -> alt -> bool
+
+val check : net -> pid -> bool -> stmt -> condition option
+
+val checkb : net -> pid -> bool -> stmt -> bool
+
+val okS : net -> pid -> bool -> stmt -> bool
+
+val okL : net -> pid -> bool -> stmt list -> bool
+
+val violS : net -> pid -> bool -> stmt -> ((pid * stmt) * condition) list
+
+val violL : net -> pid -> bool -> stmt list -> ((pid * stmt) * condition) list
+
+val ok_proc : net -> pid -> bool
+
+val nodupb : nat list -> bool
+
+val closers_unique : net -> bool
+
+val wf : net -> bool
+
+val wf_violations : net -> ((pid * stmt) * condition) list
+
+val flatS : stmt -> stmt list
+
+val flatL : stmt list -> stmt list
+
+val all_stmts : proc -> stmt list
+
+val is_range : stmt -> bool
+
+val count : (stmt -> bool) -> stmt list -> nat
+
+val net_counts : net -> nat list
+
+val wg_bufInitWG : wgid
+
+val ch_send_sendFileDataV2_0 : chan
+
+val ch_send_ReadData_0 : chan
+
+val ch_send_ReadData_1 : chan
+
+val ch_send_CalculateMD5_0 : chan
+
+val ch_send_EncodeData_0 : chan
+
+val ch_send_SendData_0 : chan
+
+val ch_send_RecvAck_0 : chan
+
+val p_send_CalculateMD5 : pid
+
+val p_send_RecvAck : pid
+
+val p_send_ShowProgress : pid
+
+val send_ReadData_body : stmt list
+
+val send_ReadData_finally : stmt list
+
+val send_ReadData_proc : proc
+
+val send_CalculateMD5_body : stmt list
+
+val send_CalculateMD5_finally : stmt list
+
+val send_CalculateMD5_proc : proc
+
+val send_EncodeData_body : stmt list
+
+val send_EncodeData_finally : stmt list
+
+val send_EncodeData_proc : proc
+
+val send_SendData_body : stmt list
+
+val send_SendData_finally : stmt list
+
+val send_SendData_proc : proc
+
+val send_RecvAck_body : stmt list
+
+val send_RecvAck_finally : stmt list
+
+val send_RecvAck_proc : proc
+
+val send_ShowProgress_body : stmt list
+
+val send_ShowProgress_finally : stmt list
+
+val send_ShowProgress_proc : proc
+
+val send_main_body : stmt list
+
+val send_main_finally : stmt list
+
+val send_main_proc : proc
+
+val send_net : net
+
+val ch_recv_recvFileDataV2_0 : chan
+
+val ch_recv_RecvData_0 : chan
+
+val ch_recv_RecvData_1 : chan
+
+val ch_recv_SendAck_0 : chan
+
+val ch_recv_DecodeData_0 : chan
+
+val ch_recv_DecodeData_1 : chan
+
+val ch_recv_CalculateMD5_0 : chan
+
+val ch_recv_SaveData_0 : chan
+
+val p_recv_SendAck : pid
+
+val p_recv_CalculateMD5 : pid
+
+val p_recv_SaveData : pid
+
+val p_recv_ShowProgress : pid
+
+val recv_RecvData_body : stmt list
+
+val recv_RecvData_finally : stmt list
+
+val recv_RecvData_proc : proc
+
+val recv_SendAck_body : stmt list
+
+val recv_SendAck_finally : stmt list
+
+val recv_SendAck_proc : proc
+
+val recv_DecodeData_body : stmt list
+
+val recv_DecodeData_finally : stmt list
+
+val recv_DecodeData_proc : proc
+
+val recv_CalculateMD5_body : stmt list
+
+val recv_CalculateMD5_finally : stmt list
+
+val recv_CalculateMD5_proc : proc
+
+val recv_SaveData_body : stmt list
+
+val recv_SaveData_finally : stmt list
+
+val recv_SaveData_proc : proc
+
+val recv_ShowProgress_body : stmt list
+
+val recv_ShowProgress_finally : stmt list
+
+val recv_ShowProgress_proc : proc
+
+val recv_main_body : stmt list
+
+val recv_main_finally : stmt list
+
+val recv_main_proc : proc
+
+val recv_net : net
+
+val ch_hash_RecvHashAck_0 : chan
+
+val p_hash_SendHash : pid
+
+val p_hash_RecvHashAck : pid
+
+val hash_SendHash_body : stmt list
+
+val hash_SendHash_finally : stmt list
+
+val hash_SendHash_proc : proc
+
+val hash_RecvHashAck_body : stmt list
+
+val hash_RecvHashAck_finally : stmt list
+
+val hash_RecvHashAck_proc : proc
+
+val hash_main_body : stmt list
+
+val hash_main_finally : stmt list
+
+val hash_main_proc : proc
+
+val hash_net : net
